@@ -163,6 +163,11 @@ template<class C, class T> struct Table {
 		if (op == "sortby" && n == 4) { a.sortBy(KeyOf<T>(), num(t[3]) != 0); return "ok"; }
 		if (op == "copyp" && n >= 3) { Buf<T> b(t, 3); if (b.n > a.cap() && shared) return "skip"; a.copy(b.p, b.n); return "ok"; }
 		if (op == "appp" && n >= 3) { Buf<T> b(t, 3); if (len + b.n > a.cap() && shared) return "skip"; a.append(b.p, b.n); return "ok"; }
+		if (op == "appown" && n == 5) { int j = (int)(num(t[3]) % (len + 1)); int k = (int)(num(t[4]) % (len - j + 1));
+			if (len + k > a.cap() && shared) return "skip"; a.append(a.data() + j, k); return "ok"; }
+		if (op == "copyown" && n == 5) { int j = (int)(num(t[3]) % (len + 1)); int k = (int)(num(t[4]) % (len - j + 1));
+			a.copy(a.data() + j, k); return "ok"; }
+		if (op == "remx" && n == 5) { a.remove((int)num(t[3]), (int)num(t[4])); return "ok"; }   // raw: a count beyond the end must be ignored
 		if (op == "iter" && n == 3) {
 			// every way of enumerating must visit exactly operator[](0..len-1)
 			long long want = 7, h1 = 7, h2 = 7, h3 = 7, h4 = 7, h5 = 7; int c3 = 0;
@@ -194,7 +199,7 @@ template<class C, class T> struct Table {
 
 	static bool known(const std::string& op, size_t n)
 	{
-		static const char* ops[] = { "drop", "app", "xapp", "push", "put", "ins", "appo", "inso", "insx", "rem", "remone", "reml", "rsz", "res", "clr", "sort", "sortd", "sortby", "copyp", "appp", "iter",
+		static const char* ops[] = { "drop", "app", "xapp", "push", "put", "ins", "appo", "inso", "insx", "rem", "remone", "reml", "rsz", "res", "clr", "sort", "sortd", "sortby", "copyp", "appp", "iter", "appown", "copyown", "remx",
 			"dup", "remif", "apnd", "copy", "set", "get", "idx", "last", "eq", "pop", "popn", "popget", "top", "qget", 0 };
 		for (int i = 0; ops[i]; i++) if (op == ops[i]) return true;
 		return false;
